@@ -269,6 +269,10 @@ class CircularSpinChain(SpinChain):
         )
 
     def topology_map(self, qc):
+        # A circuit on fewer qubits than the ring occupies an open segment
+        # of it: its first and last qubit are not coupled.
+        if qc.N < self.num_qubits:
+            return to_chain_structure(qc, "linear")
         return to_chain_structure(qc, "circular")
 
 
